@@ -1,11 +1,12 @@
 SPECIFICATION MCSpec
 CONSTANTS
   U = 7
-  MaxOps = 24
+  MaxOps = 6
   FailCs = {}
   FailNs = {}
-  PruneTs = {250}
+  PruneTs = {275}
   RgsSnaps = {1, 2}
+  ResolveCs = {}
   WithReload = FALSE
 CONSTRAINT Bound
 VIEW View
